@@ -387,6 +387,7 @@ func oneConn(w *mon.W, c *mon.Case, getC func(ccfg) *cengine, srv *sview) {
 	// `die` exchanges, without having announced it), or goes silent once in the middle of
 	// a response body (one read of the client times out)
 	die, stallResp, stallAfter := 0, -1, 0
+	stallReset := r.Chance(3) // the disturbance inside a response body is a connection reset instead of a silence
 	dist := r.Intn(8)
 	if cf.customRetry && dist == 2 {
 		dist = 0
@@ -424,6 +425,7 @@ func oneConn(w *mon.W, c *mon.Case, getC func(ccfg) *cengine, srv *sview) {
 			sc.DieAfter = die
 			if stallResp >= 0 {
 				sc.SetStall(stallResp, stallAfter)
+				sc.StallReset = stallReset
 			}
 		}
 		conns = append(conns, sc)
@@ -439,7 +441,7 @@ func oneConn(w *mon.W, c *mon.Case, getC func(ccfg) *cengine, srv *sview) {
 			ds = append(ds, fmt.Sprintf("(the peer closes the idle connection after exchange %d)", die-1))
 		}
 		if stallResp >= 0 {
-			ds = append(ds, fmt.Sprintf("(the peer goes silent once after %d bytes of response %d)", stallAfter, stallResp))
+			ds = append(ds, fmt.Sprintf("(the peer goes silent once — or, reset=%v, resets the connection — after %d bytes of response %d)", stallReset, stallAfter, stallResp))
 		}
 		return ds
 	}
